@@ -262,7 +262,7 @@ def run(chk):
     quick = chk.tier == "quick"
     ok, log = chk.prove(["extract/Extract_C03.vo", "extract/Extract_ED.vo"], extra_props=["Properties_C03_source.v"])
     chk.level = "proof"
-    chk.trusted += ["translator/gen_ham.py (statement splitter + shape recognition, ~1000 lines of Python): reads the loop ranges, case chains, written cells and broadcast "
+    chk.trusted += ["translator/gen_ham.py (statement splitter + shape recognition, ~1500 lines of Python): reads the loop ranges, case chains, written cells and broadcast "
                     "calls of Hamiltonian / HamiltonianPart off the source into coq/gen/Gen_Ham*.v, Gen_HPart*.v; Properties_C03_source.v is about those generated "
                     "descriptions and about HPartGen.v's reading of them; a function that leaves the recognised shape falls back to the snapshot and is then tied by the runs only",
                     "per-run certificate instead of a proof for Eigen::SelfAdjointEigenSolver: residuals of the dumped (E,U) against EDSpec.poly_matrix "
